@@ -63,8 +63,9 @@ static void fill_residue(int i, unsigned char *tail, size_t n, const unsigned ch
 /* What the decoder was last used for must not matter either: before every decode of the datagram under test, one of
    two different earlier datagrams (another client's query, another answer) is decoded, alternating with the residue
    index, so that the decoder's own scratch memory (stack locals, statics) differs between the runs compared. */
-static unsigned char histq[2][600], hista[2][1200];
-static size_t histqlen[2], histalen[2];
+#define NHIST 4
+static unsigned char histq[NHIST][600], hista[NHIST][2400];
+static size_t histqlen[NHIST], histalen[NHIST];
 static unsigned long long hist_calls;
 
 static void decode_history(int i)
@@ -73,9 +74,9 @@ static void decode_history(int i)
 	static char sink[8192];
 	if (!histqlen[0]) return;
 	memset(&q0, 0, sizeof(q0));
-	dns_decode(NULL, 0, &q0, QR_QUERY, (char *)histq[i & 1], histqlen[i & 1]);
+	dns_decode(NULL, 0, &q0, QR_QUERY, (char *)histq[i % NHIST], histqlen[i % NHIST]);
 	memset(&q0, 0, sizeof(q0));
-	dns_decode(sink, sizeof(sink), &q0, QR_ANSWER, (char *)hista[i & 1], histalen[i & 1]);
+	dns_decode(sink, sizeof(sink), &q0, QR_ANSWER, (char *)hista[i % NHIST], histalen[i % NHIST]);
 	hist_calls += 2;
 }
 
@@ -250,6 +251,13 @@ int main(int argc, char **argv)
 	histqlen[1] = mk_query(histq[1], "1qqqqSECONDOTHERCLIENTSDATAqqqqqqqqqqqqqqqqqqqqqqqqqqqqqqqqq.dddddddddddddddddddddddddddddddddddddddddddddd.t.example.com", T_NULL_, 1);
 	histalen[0] = mk_answer(hista[0], sizeof(hista[0]), T_CNAME_, 120);
 	histalen[1] = mk_answer(hista[1], sizeof(hista[1]), T_MX_, 200);
+	/* 2: an MX answer of several records that breaks off inside its last record (useless as a whole: what was read from the
+	   records in front of the break must not show in later decodes); 3: a complete SRV answer of several records */
+	memcpy(histq[2], histq[1], histqlen[1]); histqlen[2] = histqlen[1];
+	memcpy(histq[3], histq[0], histqlen[0]); histqlen[3] = histqlen[0];
+	do { histalen[2] = mk_answer(hista[2], sizeof(hista[2]), T_MX_, 200); } while (hista[2][7] < 3);
+	histalen[2] -= 7;
+	do { histalen[3] = mk_answer(hista[3], sizeof(hista[3]), T_SRV_, 200); } while (hista[3][7] < 3);
 
 	for (r = 0; r < rounds; r++) {
 		char qn[300];
